@@ -428,7 +428,12 @@ fn run_edit<N: Fld + Send + Sync>(p: &EditPt) -> Outcome {
             o.states = checker.unique_state_count() as u64;
             o.transitions = tr;
             o.executions = tr;
-            if let Some(path) = checker.discovery("conforms") {
+            if checker.discovery("conforms").is_some() {
+                // which counterexample a parallel search reports first depends on thread timing: the one that is
+                // written out comes from a single-threaded breadth-first search (deterministic, and shortest)
+                let m1 = edit_model::<N>(&p.model, p.depth);
+                let c1 = m1.checker().threads(1).spawn_bfs().join();
+                let path = c1.discovery("conforms").expect("the single-threaded search finds the counterexample too");
                 let last = path.last_state().clone();
                 let init: Vec<(f64, f64)> = path.clone().into_states().first().map(|s| s.coeffs.iter().map(|b| (f64::from_bits(b.0), f64::from_bits(b.1))).collect()).unwrap_or_default();
                 let acts: Vec<Act> = path.into_actions();
